@@ -300,6 +300,14 @@ impl SubCheck for Reverse {
             obs.nt("leap_reading_to_system_time");
             let lm = Ndt { frac: m.frac + 1_000_000_000, ..*m };
             let ldt = Utc.from_utc_datetime(&conv::ndt(lm));
+            // the timestamp fields of a leap-second reading: seconds of second 59, nanoseconds >= 10^9
+            #[allow(deprecated)]
+            {
+                ensure_eq!(ldt.timestamp() as i128, t.div_euclid(NS), "timestamp() of the leap-second reading {lm:?}");
+                ensure_eq!(conv::ndt(lm).timestamp() as i128, t.div_euclid(NS), "NaiveDateTime::timestamp() of the leap-second reading {lm:?}");
+                ensure_eq!(ldt.timestamp_subsec_nanos(), lm.frac, "timestamp_subsec_nanos() of the leap-second reading {lm:?}");
+                ensure_eq!(conv::ndt(lm).timestamp_subsec_nanos(), lm.frac, "NaiveDateTime::timestamp_subsec_nanos() of the leap-second reading {lm:?}");
+            }
             let lt = t + NS;
             let (secs, sub) = (lt.div_euclid(NS), lt.rem_euclid(NS) as u32);
             let st = if secs >= 0 {
